@@ -28,6 +28,7 @@ def run(ck, an, tier):
     C02.s4(d, an)
     d4 = Renamed(ck, "C04:")
     C04.partitions(d4, an)
+    C04.latency_plumbing(d4, an)
     C04.nxt(d4, an)          # what is handed out as "before" / "after" the execution at each step, also at reset (history replay builds fresh lists)
     from rules import C18, ledger as _ledger
     C18.xy_init(_ledger._Only(Renamed(ck, "C18:"), {"env-config-steps_delay", "env-config-latency", "env-config"}), an)      # the tabular wrapper passes the configured delay / latency on unchanged (0 stays 0)
